@@ -256,13 +256,13 @@ def run_impl(cfg, profile, lines):
             fh.write("\n".join(lines) + "\n")
     return run_stream([hx_path(cfg, profile), "run"], lines)
 
-def run_model(cfg, profile, lines, jobs=None):
-    """run the Lean driver, chunked over cores"""
+def run_model(cfg, profile, lines, jobs=None, heavy=False):
+    """run the Lean driver, chunked over cores (heavy: every line is expensive, split maximally)"""
     jobs = jobs or NCPU
     n = len(lines)
     if n == 0:
         return []
-    k = max(1, min(jobs, n // 200 + 1))
+    k = max(1, min(jobs, n // 200 + 1)) if not heavy else max(1, min(jobs, n))
     size = (n + k - 1) // k
     chunks = [lines[i:i + size] for i in range(0, n, size)]
     def one(ch):
